@@ -246,6 +246,20 @@ func runC07case(t *vf.T, c c07case) {
 			t.Count("truncations", 1)
 		}
 		t.Nontrivial("")
+	case "bytevals":
+		// every value of every byte: all single-byte substitutions (a superset of the single-bit flips)
+		for p := c.From; p < c.To && p < len(st.bytes); p++ {
+			for x := 0; x < 256; x++ {
+				if byte(x) == st.bytes[p] {
+					continue
+				}
+				d := append([]byte{}, st.bytes...)
+				d[p] = byte(x)
+				judgeDamage(t, st, "subst", p, c07decode(st, d, c.Dest, rnd), true)
+				t.Count("byte_substitutions", 1)
+			}
+		}
+		t.Nontrivial("")
 	case "lenbytes":
 		// every value of the first byte of every gob message (its length prefix): a longer length makes
 		// gob take the bytes that follow -- up to whole later batches -- as part of that message
@@ -350,6 +364,13 @@ func runC07(r *vf.Runner) {
 				cc := c
 				cc.Kind, cc.From, cc.To = "lenbytes", from, from+64
 				run(cc)
+			}
+			if !r.Quick() || (si == 1 && ds[0] == 3) {
+				for from := 0; from < len(st.bytes); from += 8 {
+					cc := c
+					cc.Kind, cc.From, cc.To = "bytevals", from, from+8
+					run(cc)
+				}
 			}
 		}
 	}
